@@ -432,7 +432,7 @@ class Set(Statement):
 
     @functools.cached_property
     def features(self) -> typing.Sequence['dsl.Feature']:
-        return self.left.features + self.right.features
+        return self.left.features
 
     def accept(self, visitor: 'dsl.Source.Visitor') -> None:
         visitor.visit_set(self)
